@@ -192,7 +192,6 @@ impl Builder for WriteBatch {
     fn put(&mut self, key: &[u8], timestamp: u64, value: &[u8]) -> Result<(), SError> {
         check_key_len(key)?;
         check_value_len(value)?;
-        self.setsum.put(key, timestamp, value);
         let put = KeyValuePut {
             shared: 0,
             key_frag: key,
@@ -201,13 +200,13 @@ impl Builder for WriteBatch {
         };
         let pa = stack_pack(KeyValueEntry::Put(put));
         check_batch_size_plus(&self.buffer, &pa)?;
+        self.setsum.put(key, timestamp, value);
         pa.append_to_vec(&mut self.buffer);
         Ok(())
     }
 
     fn del(&mut self, key: &[u8], timestamp: u64) -> Result<(), SError> {
         check_key_len(key)?;
-        self.setsum.del(key, timestamp);
         let del = KeyValueDel {
             shared: 0,
             key_frag: key,
@@ -215,6 +214,7 @@ impl Builder for WriteBatch {
         };
         let pa = stack_pack(KeyValueEntry::Del(del));
         check_batch_size_plus(&self.buffer, &pa)?;
+        self.setsum.del(key, timestamp);
         pa.append_to_vec(&mut self.buffer);
         Ok(())
     }
